@@ -3,7 +3,7 @@ from checks import krill_common as kc
 
 PID = "C02"
 LEVEL = "model_checking"
-THEMES = "chain,roll,multi,mix,foreign,deep,autosus".split(",")
+THEMES = "chain,roll,multi,mix,foreign,deep".split(",")
 NEEDED = "ChildRes,Settled".split(",")
 
 RULE = (
